@@ -262,3 +262,19 @@ void h_copy_assign(void) {
   CANARY();
 }
 #endif
+
+#ifdef UNIT_AlignBuffer
+/* ---- AlignBuffer (user-supplied initial buffer): result is pointer-aligned, inside the buffer, size shrinks by the skipped bytes ---- */
+#include "gen/MemoryPoolAllocator.AlignBuffer.inc"
+size_t in_asz, in_aoff;
+void h_AlignBuffer(void) {
+  size_t off, sz; __CPROVER_assume(off < 64 && sz <= 4096 && sz >= 8); in_aoff = off; in_asz = sz;
+  uint8_t *blk = malloc(off + sz); __CPROVER_assume(blk != NULL);      /* a user buffer at any misalignment inside its object */
+  size_t size = sz;
+  uint8_t *r = AlignBuffer(blk + off, size);
+  VASSERT(((uintptr_t)r & (sizeof(void *) - 1)) == 0, "C16.alignbuffer.aligned: the pool header is placed at a pointer-aligned address");
+  VASSERT(__CPROVER_same_object(r, blk) && r >= blk + off && r + size == blk + off + sz, "C16.alignbuffer.inside: the aligned region is the tail of the user buffer, size reduced by exactly the skipped bytes");
+  VASSERT((size_t)(r - (blk + off)) < sizeof(void *), "C16.alignbuffer.skip: fewer than 8 bytes are skipped");
+  CANARY();
+}
+#endif
